@@ -139,14 +139,24 @@ def lake_build(targets):
     return rc == 0, out
 
 
+def property_modules(pid):
+    """`Properties/Cxx.lean` plus continuation files `Properties/Cxx_<topic>.lean` (used where a proof library builds
+    on the first file, so its theorems cannot be imported back into it)"""
+    import glob
+    d = os.path.join(LEAN_DIR, "ExponaxModel", "Properties")
+    files = [os.path.join(d, f"{pid}.lean")] + sorted(glob.glob(os.path.join(d, f"{pid}_*.lean")))
+    return [(f, "ExponaxModel.Properties." + os.path.basename(f)[:-5]) for f in files]
+
+
 def property_theorems(pid):
-    path = os.path.join(LEAN_DIR, "ExponaxModel", "Properties", f"{pid}.lean")
-    src = open(path).read()
-    # strip comments
-    nocom = re.sub(r"/-.*?-/", "", src, flags=re.S)
-    nocom = re.sub(r"--.*", "", nocom)
-    thms = re.findall(r"^\s*theorem\s+([A-Za-z0-9_.']+)", nocom, flags=re.M)
-    examples = len(re.findall(r"^\s*example\b", nocom, flags=re.M))
+    thms, examples = [], 0
+    for path, _ in property_modules(pid):
+        src = open(path).read()
+        # strip comments
+        nocom = re.sub(r"/-.*?-/", "", src, flags=re.S)
+        nocom = re.sub(r"--.*", "", nocom)
+        thms += re.findall(r"^\s*theorem\s+([A-Za-z0-9_.']+)", nocom, flags=re.M)
+        examples += len(re.findall(r"^\s*example\b", nocom, flags=re.M))
     return thms, examples
 
 
@@ -180,7 +190,9 @@ def audit_axioms(pid, thms):
     os.makedirs(WORK, exist_ok=True)
     path = os.path.join(WORK, f"Audit_{pid}_{os.getpid()}.lean")
     with open(path, "w") as f:
-        f.write(f"import ExponaxModel.Properties.{pid}\nopen Exponax\n")
+        for _, mod in property_modules(pid):
+            f.write(f"import {mod}\n")
+        f.write("open Exponax\n")
         for t in thms:
             f.write(f"#print axioms {t}\n")
     try:
